@@ -249,6 +249,7 @@ func (g *gen03) resolveForPaths(n *node) *node {
 type probe struct {
 	path string
 	null bool
+	kind string
 }
 
 func collectPaths(n *node, prefix string, out *[]probe) {
@@ -263,7 +264,7 @@ func collectPaths(n *node, prefix string, out *[]probe) {
 		if prefix != "" {
 			p = prefix + "." + k
 		}
-		*out = append(*out, probe{path: p, null: n.vals[i].kind == "null"})
+		*out = append(*out, probe{path: p, null: n.vals[i].kind == "null", kind: n.vals[i].kind})
 		collectPaths(n.vals[i], p, out)
 	}
 }
@@ -351,6 +352,9 @@ func genCase03(rng *rand.Rand, domain bool, assign []int) hx.Case {
 				lines = append(lines, "gc getnull "+p.path)
 			} else {
 				lines = append(lines, "gc get "+p.path, "gc spec "+p.path)
+				if rng.Intn(3) == 0 {
+					lines = append(lines, "gc gettyped "+p.kind+" "+p.path)
+				}
 			}
 		}
 		nontrivial = len(ps) > 0
